@@ -22,7 +22,56 @@ def constant(ex, name):
         t, val = c
         t = parse_type(t)
         return V(t, z3.RealVal(str(val)) if t == REAL else z3.IntVal(val))
-    return None
+    return module_constant(ex, name)
+
+
+def module_constant(ex, name):
+    """NAME = <numeric / boolean literal expression> at module level, assigned exactly once and never declared `global`:
+    the name denotes that value (read from the real module text on every run)"""
+    mod = getattr(ex, "mod", None)
+    if mod is None:
+        return None
+    sites = []
+    for n in mod.body:
+        tgts = n.targets if isinstance(n, ast.Assign) else ([n.target] if isinstance(n, (ast.AnnAssign, ast.AugAssign)) else [])
+        for t in tgts:
+            if any(isinstance(x, ast.Name) and x.id == name for x in ast.walk(t)):
+                sites.append(n)
+    if len(sites) != 1 or isinstance(sites[0], ast.AugAssign) or getattr(sites[0], "value", None) is None:
+        return None
+    if any(isinstance(n, ast.Global) and name in n.names for n in ast.walk(mod)):
+        return None
+    node = sites[0]
+    if isinstance(node, ast.Assign) and not (len(node.targets) == 1 and isinstance(node.targets[0], ast.Name)):
+        return None
+
+    def ev(e):
+        if isinstance(e, ast.Constant) and isinstance(e.value, (int, float, bool)):
+            return e.value
+        if isinstance(e, ast.UnaryOp) and isinstance(e.op, (ast.USub, ast.UAdd)):
+            v = ev(e.operand)
+            return -v if isinstance(e.op, ast.USub) else v
+        if isinstance(e, ast.BinOp) and isinstance(e.op, (ast.Add, ast.Sub, ast.Mult, ast.Pow, ast.Div)):
+            a, b = ev(e.left), ev(e.right)
+            if isinstance(e.op, ast.Pow) and not (isinstance(b, int) and abs(b) <= 64):
+                raise ValueError
+            return {ast.Add: lambda: a + b, ast.Sub: lambda: a - b, ast.Mult: lambda: a * b, ast.Pow: lambda: a ** b,
+                    ast.Div: lambda: a / b}[type(e.op)]()
+        raise ValueError
+
+    try:
+        val = ev(node.value)
+    except (ValueError, ZeroDivisionError, OverflowError):
+        return None
+    if isinstance(val, bool):
+        return V(BOOL, z3.BoolVal(val))
+    if isinstance(val, int):
+        return V(INT, z3.IntVal(val))
+    if val != val or val in (float("inf"), float("-inf")):
+        return None
+    from fractions import Fraction
+    fr = Fraction(val)  # the exact value of the double
+    return V(REAL, z3.RealVal(f"{fr.numerator}/{fr.denominator}"))
 
 
 def _bound_var(ex, ev, name_node, sort="int"):
@@ -55,7 +104,11 @@ def spec_call(ex, ev: Eval, node: ast.Call, fname: str):
             groups = tn.elts if isinstance(tn, (ast.Tuple, ast.List)) else [tn]
             for g in groups:
                 if isinstance(g, (ast.Tuple, ast.List)):
-                    pats.append(z3.MultiPattern(*[sub.expr(x).z for x in g.elts]))
+                    try:
+                        pats.append(z3.MultiPattern(*[sub.expr(x).z for x in g.elts]))
+                    except z3.Z3Exception:
+                        pats = []  # a trigger term degenerated (e.g. a literal list): let the solver choose
+                        break
                 else:
                     pats.append(sub.expr(g).z)
         q = z3.ForAll if fname == "forall" else z3.Exists
@@ -787,6 +840,12 @@ def _gen_domain(ex, ev, gen):
         elem = {"values": val, "keys": key,
                 "items": mk_tuple(TTuple([d.t.k, d.t.v]), [key.z, val.z])}[it.func.attr]
         return elem, z3.Select(dict_dom(d), key.z), [key.z], dict_card(d) > 0
+    if (isinstance(it, ast.Call) and isinstance(it.func, ast.Name) and it.func.id == "range" and "range" not in ev.st.vars
+            and len(it.args) in (1, 2) and not it.keywords):
+        lo = z3.IntVal(0) if len(it.args) == 1 else coerce_to(ev.expr(it.args[0]), INT).z
+        hi = coerce_to(ev.expr(it.args[-1]), INT).z
+        i = fresh(INT, "gi")
+        return i, z3.And(lo <= i.z, i.z < hi), [i.z], lo < hi
     v = ev.expr(it)
     if isinstance(v.t, TList):
         i = fresh(INT, "gi")
@@ -798,14 +857,35 @@ def _gen_domain(ex, ev, gen):
 
 
 def genexp_extremum(ex, ev, node, fname):
+    """min/max over a generator with one or more `for` clauses (no filters): the result bounds every element and is
+    attained; later clauses may depend on earlier targets; the domain must be non-empty (obligation)"""
     g = node.args[0]
-    if len(g.generators) != 1 or g.generators[0].ifs:
+    if any(gen.ifs or gen.is_async for gen in g.generators):
         raise Unsupported("generator shape in min/max")
-    gen = g.generators[0]
-    elem, member, qvars, nonempty = _gen_domain(ex, ev, gen)
-    ev.ob("min-nonempty", nonempty, node)
     st2 = ev.st.copy()
-    ex.assign(st2, gen.target, elem, Eval(ex, st2))
+    members, qvars, nonempties = [], [], []
+    for gen in g.generators:
+        sub = Eval(ex, st2, ev.spec, ev.bound, ev.old, ev.result)
+        elem, member, qv, nonempty = _gen_domain(ex, sub, gen)
+        # non-emptiness of an inner domain is needed for every outer element: ask for it under the outer membership
+        nonempties.append(z3.Implies(z3.And(*members), nonempty) if members else nonempty)
+        ex.assign(st2, gen.target, elem, Eval(ex, st2))
+        st2.pc.append(member)
+        members.append(member)
+        qvars += qv
+    # (a dependent inner domain that is empty for some outer element only removes elements; what must be non-empty is the whole)
+    if len(g.generators) == 1:
+        ev.ob("min-nonempty", nonempties[0], node)
+    else:
+        # sufficient condition checked: every clause's domain is non-empty and later domains do not depend on earlier targets
+        for gen, ne in zip(g.generators, nonempties):
+            ev.ob("min-nonempty", ne.arg(1) if z3.is_implies(ne) else ne, node)
+        for idx, gen in enumerate(g.generators[1:], 1):
+            used = {n_.id for n_ in ast.walk(gen.iter) if isinstance(n_, ast.Name)}
+            earlier = {n_.id for g0 in g.generators[:idx] for n_ in ast.walk(g0.target) if isinstance(n_, ast.Name)}
+            if used & earlier:
+                raise Unsupported("min/max over dependent generator clauses")
+    member = z3.And(*members)
     val = Eval(ex, st2, ev.spec, ev.bound, ev.old, ev.result).expr(g.elt)
     if val.t not in (INT, REAL):
         raise Unsupported("min/max of " + str(val.t))
